@@ -22,6 +22,11 @@
 (*               (valid statements first, then an error: nothing may stick)  *)
 (*   "funcbody"  func n() int { ev("ran"); return undefinedName }            *)
 (*   "typedecl"  type n struct{ A undefinedType }                            *)
+(*   "funcsig"   func f(a, b string) int { ev("ran"); return undefinedName } *)
+(*               (a redefinition of f with ANOTHER signature that fails)     *)
+(*   "funcsig2"  func f(a string) string { return a }; var zz int = undefinedName *)
+(*               (a valid redefinition with another signature, then an error) *)
+(*   "constre"   const c = "s"; var zz int = undefinedName                   *)
 (***************************************************************************)
 EXTENDS Naturals, Sequences, FiniteSets, TLC, Json
 
@@ -66,7 +71,8 @@ DeclType(variant) ==
 \* an input that does not compile: the environment is unchanged (and none of its code runs)
 Fail(kind, n) ==
     /\ kind \in FailKinds
-    /\ (kind = "funcbody" => n = "f") /\ (kind = "typedecl" => n = "T")
+    /\ (kind \in {"funcbody", "funcsig", "funcsig2"} => n = "f") /\ (kind = "typedecl" => n = "T")
+    /\ (kind = "constre" => n = "c")
     /\ (kind \in {"parse", "type", "second"} => n \in {"v", "w"})
     /\ LET e1 == IF FailedCompileSticks /\ kind = "second"
                  THEN [env EXCEPT ![n] = [k |-> "var", typ |-> "string", x |-> 0, tv |-> 0, ver |-> 0]]
